@@ -87,8 +87,12 @@ def build_metafile(case, payload_root, out):
         creator = "TorrentFile" if v == 1 else "TorrentAssembler"
         return create_meta({"creator": creator, "version": v, "P": P}, payload_root, out)
     files = [(list(f["path"]), _orig(tree, f)) for f in tree["files"]]
+    kw = {}
+    if case.get("extra_keys"):
+        kw["extra_info"] = {"x-unknown": [1, "a"], "source": "elsewhere"}
+        kw["extra_top"] = {"comment": "c", "zzz": 2 ** 40, "url-list": "http://w.example/f", "announce": "http://t.example/a"}
     raw = refenc.build(case.get("meta_name", tree["name"]), [(list(f.get("meta_path", f["path"])), d) for f, (_, d) in zip(tree["files"], files)],
-                       P, v, single=bool(tree.get("single")))
+                       P, v, single=bool(tree.get("single")), **kw)
     write_file(out, raw)
     return "ok"
 
@@ -180,6 +184,7 @@ def run_rebuild(case):
         os.makedirs(os.path.join(sbx, "abs"), exist_ok=True)
         before = snapshot(sbx)
         # 4. run
+        cwd0 = os.getcwd()
         fstrace.start([sbx])
         try:
             with _SortedListing():
@@ -187,6 +192,11 @@ def run_rebuild(case):
                 runs = 2 if case.get("repeat") else 1
                 rec["runs"] = runs
                 marg = [mdir] if len(trees) > 1 else [mpaths[0]]
+                if case.get("rel_paths"):      # every path spelled relative to the working directory
+                    os.chdir(sbx)
+                    marg = [os.path.relpath(m, sbx) for m in marg]
+                    sdirs = [os.path.relpath(d, sbx) for d in sdirs]
+                    dest = os.path.relpath(dest, sbx)
                 for _ in range(runs):
                     if case.get("route") == "cli":
                         from torrentfile.cli import execute
@@ -200,6 +210,10 @@ def run_rebuild(case):
             rec["status"] = "exc:" + type(ex).__name__
         finally:
             log = fstrace.stop()
+            os.chdir(cwd0)
+            if case.get("rel_paths"):
+                sdirs = [os.path.join(sbx, d) for d in sdirs]
+                dest = os.path.join(sbx, dest)
         if not isinstance(rec["count"], int):
             rec["count"] = -1
         after = snapshot(sbx)
